@@ -1,11 +1,15 @@
 """C14 — bulk observables are normalised per event and per unit of the variable.
 
-Tie C only (no translator): the executable Lean model `Core/Bulk.lean` (histogram fill / one row per
-event / unit-weight average / scale by 1/width; mid-rapidity counters) is run by the driver on the very
-inputs given to the real `BulkObservables`; the quantity values (`rapidity()`, `pT_abs()`, ...) and the
-bin edges of a tuple binning (`np.linspace`) are taken from the real library and handed to the model
-(DESIGN 2.3), their contracts (edges strictly increasing, first/last edge = tuple limits) are checked
-on every case.
+Tie T: `harness/translate/bulk.py` regenerates `Gen/Bulk.lean` from the current `BulkObservables.py`
+(`_differential_yield`, the three mid-rapidity functions, the wrapper / default tables); `Lemmas/BulkGen.lean`
+proves the generated functions equal to the hand-written model `Core/Bulk.lean`, `Props/C14/Gen.lean` restates
+the property theorems about them.  Tie C: the hand-written model (histogram fill / one row per event /
+unit-weight average / scale by 1/width; mid-rapidity counters) AND the generated functions (ops `gdndx`,
+`gyield`, `gmeanpt`, `gmeanmt`) are run by the driver on the very inputs given to the real `BulkObservables`;
+the quantity values (`rapidity()`, `pT_abs()`, ... - for the generated functions: the method named by the
+generated table) and the bin edges of a tuple binning (`np.linspace`) are taken from the real library and
+handed to the model (DESIGN 2.3), their contracts (edges strictly increasing, first/last edge = tuple limits)
+are checked on every case.
 
 The oracle (`search`) checks the PROPERTY on the real code against an independent reference written
 here with exact rationals: direct counting per bin, the normalisation corollary, the per-event means,
@@ -50,6 +54,29 @@ BIN_FLAVOURS = ["default", "tuple-int", "tuple-float", "tuple-mixed",
                 "list-int", "list-int", "list-int-unit", "list-float", "list-mixed", "list-qedges",
                 "list-npfloat-items", "list-npint-items", "ndarray-int", "ndarray-float"]
 REJECTABLE = {"list-npint-items", "ndarray-int", "ndarray-float"}
+
+
+# ------------------------------------------------------------------ translator (tie T)
+GEN = common.LEAN / "SparkxVerif/Gen/Bulk.lean"
+
+
+def translate(ctx):
+    from translate import bulk
+    text, regions, ex = bulk.render(common.read_src("BulkObservables.py"))
+    changed = common.write_if_changed(GEN, text)
+    golden = common.LEAN / "golden/Gen/Bulk.lean"
+    ctx.cov["gen_equals_golden"] = golden.exists() and golden.read_text() == text
+    ctx.cov["translator_not_modelled"] = ex["notes"]
+    if changed:
+        ctx.notes.append("Gen/Bulk.lean regenerated (source differs from last run)")
+    return regions
+
+
+def gen_tables():
+    """wrapper -> quantity / default binning, mean -> averaged method, default window: read from the Gen/Bulk.lean
+    the driver was built from (the freshly generated one, or the golden copy after a translator fallback)"""
+    from translate import bulk
+    return bulk.tables_from_lean(GEN.read_text())
 
 
 # ------------------------------------------------------------------ real code access
@@ -461,7 +488,12 @@ def correspond(ctx):
                 "a particle exactly on the edge and invalid widths; three rapidity flavours. "
                 "non-trivial (dN/dx) = >=2 events, some bin filled, and an empty event or a value outside the range or "
                 "exactly on an edge; (mid) = >=2 events, a particle inside and one outside the window or an empty event")
-    ctx.cov["tie"] = "C (correspondence through lean/drivers/C14.lean); no translator"
+    if not getattr(ctx, "fallback", False):
+        ctx.cov["tie"] = ("T+C: Gen/Bulk.lean regenerated from BulkObservables.py and proved equal to Core/Bulk.lean "
+                          "(Lemmas/BulkGen.lean); hand model and generated functions both run against the real code "
+                          "through lean/drivers/C14.lean")
+    tables = gen_tables()
+    ctx.cov["generated_tables"] = {k: {a: list(b) if isinstance(b, tuple) else b for a, b in v.items()} for k, v in tables.items()}
     ctx.assumptions += [
         "C14: numpy contracts used as parameters: np.linspace (strictly increasing, end points exact - checked per case), "
         "np.digitize(v, edges) = number of edges <= v for increasing edges, np.average(axis=0, weights=ones) = sum/count",
@@ -470,6 +502,11 @@ def correspond(ctx):
         "(snapshot of identities and data bytes; write_to_file + parse), they are not Lean theorems",
         "C14: binnings given as numpy arrays / lists of numpy ints are outside the documented API; a TypeError/ValueError for "
         "them is accepted, a returned histogram is checked like any other",
+        "C14 tie T: translated = statements of _differential_yield after argument-type validation, the wrappers' quantity and "
+        "default binning, the three mid-rapidity functions after argument-type validation. NOT translated (recognised, "
+        "hashed): isinstance/callable validation, warnings, _check_quantity_is_method, class ReadOnlyList (checked to delegate "
+        "indexing/len/iteration); Histogram methods are the primitives HObj.* of Core/Bulk.lean (Histogram is C09/C10's subject, "
+        "tied here by correspondence); the translator itself is trusted (mitigated: generated functions are run against the code)",
     ]
     samples = [(evs, None, "pattern", None) for evs in empty_patterns()]
     for evs, meth, fv, v in type_flavour_block():
@@ -525,6 +562,20 @@ def correspond(ctx):
                         f"the binning's edges {edges}", case=dict(events=evs, alias=alias, method=meth, bins=b, reused_object=reuse))
             lines.append(f"dndx\t{fl(edges)}\t{enc_dn_events(q)}")
             meta.append(("dn", meth, b, evs, alias, q, edges, real[:2], reuse))
+            # the function GENERATED from the current source, on the quantity / default binning of the generated tables
+            gq = tables["quantity"].get(meth)
+            try:
+                qg = q if gq == DN_METHODS[meth] else quantity_values(pl, gq)
+            except Exception as e:  # noqa: BLE001
+                brk(f"generated table names `{gq}` as the quantity of {meth}: {type(e).__name__}", case=dict(method=meth))
+                qg = None
+            if qg is not None:
+                eg = edges
+                if b["kind"] == "default":
+                    lo, hi, n = tables["default"][meth]
+                    eg = [float(x) for x in np.linspace(lo, hi, num=n + 1)]
+                lines.append(f"gdndx\t{fl(eg)}\t{enc_dn_events(qg)}")
+                meta.append(("gdn", meth, b, evs, alias, qg, eg, real[:2], reuse))
             if follow_up and real[0] == "ok":
                 r = rng.random()
                 if r < 0.3:
@@ -554,8 +605,20 @@ def correspond(ctx):
                 real = call_mid(pl, meth, w, flavour, use_default, bo)
                 op = "yield" if xname is None else "mean"
                 lines.append(f"{op}\t{f2h(float(w))}\t{enc_mid_events(y, x)}")
-                meta.append(("mid", meth, dict(y_width=w, quantity=flavour, default_args=use_default), evs, alias, (y, x),
-                             None, real, reuse))
+                marg = dict(y_width=w, quantity=flavour, default_args=use_default)
+                meta.append(("mid", meth, marg, evs, alias, (y, x), None, real, reuse))
+                # the GENERATED function, on the averaged method / default arguments of the generated tables
+                gop = {"mid_rapidity_yield": "gyield", "mid_rapidity_mean_pT": "gmeanpt", "mid_rapidity_mean_mT": "gmeanmt"}[meth]
+                wg, fg = (tables["mid_default"][meth] if use_default else (w, flavour))
+                gx = tables["mean_value"].get(meth)
+                try:
+                    yg = y if fg == flavour else quantity_values(pl, fg)
+                    xg = x if (xname is None or gx == xname) else quantity_values(pl, gx)
+                except Exception as e:  # noqa: BLE001
+                    brk(f"generated tables name `{fg}` / `{gx}` for {meth}: {type(e).__name__}", case=dict(method=meth))
+                    continue
+                lines.append(f"{gop}\t{f2h(float(wg))}\t{enc_mid_events(yg, xg)}")
+                meta.append(("gmid", meth, marg, evs, alias, (yg, xg), None, real, reuse))
         if snapshot(pl) != snap:
             brk("the particle lists were modified by a BulkObservables call (the model is a pure function)",
                 case=dict(events=evs, alias=alias))
@@ -564,6 +627,23 @@ def correspond(ctx):
         nev = len(evs)
         has_empty = any(len(e) == 0 for e in evs)
         how = "re-used object" if reuse else "fresh object"
+        if kind in ("gdn", "gmid"):
+            # generated function vs real code (tie C on top of tie T)
+            if out.startswith("ok "):
+                if kind == "gdn":
+                    rows = [parse_fl(r) for r in out[3:].split("|")]
+                    ok = real[0] == "ok" and len(rows) == 1 and close_list(real[1], rows[0], 1e-12)
+                else:
+                    ok = real[0] == "ok" and close(real[1], h2f(out[3:]), rel=1e-12)
+            elif out == "err value":
+                ok = real == ("err", "value")
+            else:
+                ok = False
+            ctx.count(f"generated/{meth}/{'agrees' if ok else 'DIFFERS'}")
+            if not ok:
+                brk(f"{meth} ({how}): code {real[:2]} vs GENERATED function {out[:200]}",
+                    case=dict(events=evs, alias=alias, method=meth, arg=arg, reused_object=reuse))
+            continue
         if kind == "dn":
             q = vals
             if out.startswith("ok "):
